@@ -117,6 +117,8 @@ class Lean:
         """`lake build targets`; returns (ok, log)."""
 
         def go():
+            import gen_lean_roots
+            gen_lean_roots.main()
             p = subprocess.run(
                 ["lake", "build", *targets], cwd=LEAN, capture_output=True, text=True, timeout=timeout
             )
